@@ -7,13 +7,14 @@ EXTENDS PandoraMachine, MC_Tables
 CONSTANTS MaxLen, MaxOps, MaxScales
 VARIABLES s, ops
 
-MkPipe(n, ks, bad) == [i \in 1..n |-> [kind |-> ks[i], sfx |-> 0, ok |-> (i # bad)]]
+\* fl: the validation steps of the pipeline are configured with interpolated_disparity (filling sub-steps)
+MkPipe(n, ks, bad, fl) == [i \in 1..n |-> [kind |-> ks[i], sfx |-> 0, ok |-> (i # bad), fill |-> (fl /\ ks[i] = "validation")]]
 
 Init == s = Idle0 /\ ops = 0
 
 NewCheck  == /\ s.pc = "idle" /\ ops = 0
-             /\ \E n \in 1..MaxLen : \E ks \in [1..n -> Kinds] : \E bad \in 0..n :
-                   \E x \in CheckBegin(s, MkPipe(n, ks, bad)) : s' = x.st
+             /\ \E n \in 1..MaxLen : \E ks \in [1..n -> Kinds] : \E bad \in 0..n : \E fl \in BOOLEAN :
+                   \E x \in CheckBegin(s, MkPipe(n, ks, bad, fl)) : s' = x.st
              /\ ops' = ops + 1
 ReCheck   == /\ s.pc = "idle" /\ ops > 0 /\ ops < MaxOps
              /\ \E x \in CheckBegin(s, s.cur) : s' = x.st
@@ -34,5 +35,6 @@ InvBackToInitial        == BackToInitial(s)
 InvTypeOK               == TypeOK(s)
 \* vacuity witnesses: each of these must be REACHABLE (checked by separate "expect violation" configs)
 NeverRan       == ~(s.pc = "idle" /\ s.out = "ran" /\ s.ns = 3 /\ HasValidation(s.cur))
+NeverFilled    == ~(s.pc = "run" /\ s.sub = "fillR" /\ s.ns = 2)
 NeverRejected  == ~(s.pc = "idle" /\ s.out = "rejected" /\ s.err = "sequencing")
 =============================================================================
